@@ -951,6 +951,112 @@ func main() {
 	vb.WriteString("\nend Jwt.Gen\n")
 	must(os.WriteFile(filepath.Join(*out, "Validation.lean"), []byte(vb.String()), 0o644))
 
+	// ---------- G5: panic-capable sites of package jwt (v2) ----------
+	var sb5 strings.Builder
+	sb5.WriteString(hdr + "namespace Jwt.Gen\n\n")
+	for _, pi := range infos {
+		if pi.short != "V2" {
+			continue
+		}
+		var sites []string
+		eachFunc(pi.p, func(fd *ast.FuncDecl, _ *ast.File) {
+			key := funcKey(fd)
+			src := func(n ast.Node) string {
+				var buf bytes.Buffer
+				printer.Fprint(&buf, token.NewFileSet(), n)
+				t := strings.Join(strings.Fields(buf.String()), " ")
+				if len(t) > 70 {
+					t = t[:70]
+				}
+				return t
+			}
+			// loop variables ranging over slices of pointers / maps to interfaces: derefs of those can hit nil
+			ptrVars := map[string]bool{}
+			ast.Inspect(fd.Body, func(n ast.Node) bool {
+				if rs, ok := n.(*ast.RangeStmt); ok && rs.Value != nil {
+					if id, ok := rs.Value.(*ast.Ident); ok {
+						if tv, ok := pi.p.TypesInfo.Types[rs.X]; ok {
+							var el types.Type
+							switch u := tv.Type.Underlying().(type) {
+							case *types.Slice:
+								el = u.Elem()
+							case *types.Map:
+								el = u.Elem()
+							case *types.Pointer:
+								if sl, ok := u.Elem().Underlying().(*types.Slice); ok {
+									el = sl.Elem()
+								}
+							}
+							if el != nil {
+								switch el.Underlying().(type) {
+								case *types.Pointer, *types.Interface:
+									ptrVars[id.Name] = true
+								}
+							}
+						}
+					}
+				}
+				return true
+			})
+			ast.Inspect(fd.Body, func(n ast.Node) bool {
+				switch x := n.(type) {
+				case *ast.IndexExpr:
+					if tv, ok := pi.p.TypesInfo.Types[x.X]; ok {
+						switch tv.Type.Underlying().(type) {
+						case *types.Slice, *types.Array, *types.Basic:
+							sites = append(sites, key+" | index | "+src(x))
+						}
+					}
+				case *ast.SliceExpr:
+					sites = append(sites, key+" | slice | "+src(x))
+				case *ast.AssignStmt:
+					for _, l := range x.Lhs {
+						if ix, ok := l.(*ast.IndexExpr); ok {
+							if tv, ok := pi.p.TypesInfo.Types[ix.X]; ok {
+								if _, isMap := tv.Type.Underlying().(*types.Map); isMap {
+									sites = append(sites, key+" | mapstore | "+src(ix))
+								}
+							}
+						}
+					}
+				case *ast.SelectorExpr:
+					if id, ok := x.X.(*ast.Ident); ok && ptrVars[id.Name] {
+						sites = append(sites, key+" | elemderef | "+src(x))
+					}
+				case *ast.TypeAssertExpr:
+					if x.Type != nil {
+						sites = append(sites, key+" | typeassert | "+src(x))
+					}
+				case *ast.CallExpr:
+					if id, ok := x.Fun.(*ast.Ident); ok && id.Name == "panic" {
+						sites = append(sites, key+" | panic | "+src(x))
+					}
+					if se, ok := x.Fun.(*ast.SelectorExpr); ok {
+						if se.Sel.Name == "MustCompile" {
+							sites = append(sites, key+" | mustcompile | "+src(x))
+						}
+					}
+				case *ast.StarExpr:
+					sites = append(sites, key+" | deref | "+src(x))
+				}
+				return true
+			})
+		})
+		sort.Strings(sites)
+		sb5.WriteString("/-- every syntactic site in package jwt that the Go runtime checks at run time (index, slice, map store,\nuse of a possibly-nil list element, unchecked type assertion, explicit panic, pointer dereference) -/\ndef panicSites : List String := [\n")
+		for i, st := range sites {
+			sep := ","
+			if i == len(sites)-1 {
+				sep = ""
+			}
+			fmt.Fprintf(&sb5, "  %q%s\n", st, sep)
+		}
+		sb5.WriteString("]\n")
+		facts["panic_sites"] = sites
+	}
+	sb5.WriteString("\nend Jwt.Gen\n")
+	must(os.WriteFile(filepath.Join(*out, "Sites.lean"), []byte(sb5.String()), 0o644))
+
 	b, _ := json.MarshalIndent(facts, "", " ")
 	must(os.WriteFile(filepath.Join(*out, "facts.json"), b, 0o644))
 	fmt.Printf("extracted: %d schemas, %d schema problems\n", len(schemaNames["V2"])+len(schemaNames["V1"]), len(allProblems))
